@@ -169,6 +169,26 @@ Proof.
   apply (hfs_needle_le needle (S (List.length needle)) r); auto.
 Qed.
 
+(* well-formedness only matters for names that start like a dot-file *)
+Lemma git_hfs_no_head name needle : git_hfs_head name = false -> git_is_hfs_dot name needle = false.
+Proof.
+  unfold git_hfs_head, git_is_hfs_dot. destruct (next_hfs (S (List.length name)) name) as [[| |c| |] r]; try reflexivity.
+  now intros ->.
+Qed.
+
+Lemma hfs_dot_eq_git2 name needle :
+  is_bytes name = true -> utf8_guard name = true -> tlacks 0 name = true -> tlacks 47 name = true ->
+  is_hfs_dot name needle = git_is_hfs_dot name needle.
+Proof.
+  intros HB G H0 H47. unfold utf8_guard in G. destruct (wf_utf8 name) eqn:W; [now apply hfs_dot_eq_git|].
+  cbn [orb] in G. apply negb_true_iff in G. rewrite (git_hfs_no_head name needle G).
+  destruct (is_hfs_dot name needle) eqn:E; [|reflexivity].
+  apply (hfs_dot_le_git name needle HB) in E. now rewrite (git_hfs_no_head name needle G) in E.
+Qed.
+
+Lemma wf_utf8_guard name : wf_utf8 name = true -> utf8_guard name = true.
+Proof. unfold utf8_guard. now intros ->. Qed.
+
 (* the malformed tails on which the two differ (known finding hfs-dotgit-malformed-tail) *)
 Lemma hfs_dot_malformed :
   let ff := [46; 103; 105; 116; 255] in
